@@ -237,6 +237,11 @@ theorem proto_order : ∀ (outs : List Out) (p q : Proto), protoRun p outs = som
         split at hs
         · simp at hs; subst hs; simpa [begins, heads] using ih'
         · simp at hs
+      | upgrade r =>
+        simp only [protoStep] at hs
+        split at hs
+        · simp at hs; subst hs; simpa [begins, heads] using ih'
+        · simp at hs
       | wrote bs => simp [protoStep] at hs; subst hs; simpa [begins, heads] using ih'
       | ioShutdown => simp [protoStep] at hs; subst hs; simpa [begins, heads] using ih'
       | wake => simp [protoStep] at hs; subst hs; simpa [begins, heads] using ih'
@@ -271,24 +276,114 @@ theorem C02_order (cfg : Cfg) (es : List Event) (s : DState) (outs : List Out)
   refine ⟨List.prefix_append _ _, ?_⟩
   cases (protoOf s.st).pending <;> simp
 
-/-- **C02_context** (former findings F1 / F1b / F1c, now fixed): every response head written for
-request `r` on any accepted run is `headFacts ctx res size` for a context `ctx` that is request
-`r`'s own — HEAD flag, version and connection type are those of the request being answered, no
-matter what else has been decoded (pipelined) in the meantime. -/
-theorem C02_context (cfg : Cfg) (es : List Event) (s : DState) (outs : List Out)
+/-- Full statement (no hypothesis on the configuration) — **false** when an upgrade service is
+configured: decoding an upgrade request (`MessageType::Stream if upgrade.is_some()`) overwrites
+the codec context without saving it for the in-flight response, and the queued `Upgrade` message
+carries none, so (a) the response to an earlier request that is still in flight is encoded with
+the upgrade request's context and (b) the upgrade service's `Framed` encodes its 101 with the
+context of whatever request was answered last (known findings `earlier-response-has-upgrade-ctx`,
+`upgrade-ctx-of-earlier-request`; `witness_upgrade_ctx`).
+
+theorem C02_context : Out.head (some r) f ∈ outs → ∃ rq ctx res size, rq.rid = r ∧ ctxMatches cfg ctx rq ∧ f = headFacts ctx res size
+
+**C02_context_partial** (former findings F1 / F1b / F1c, fixed): without an upgrade service,
+every response head written for request `r` on any accepted run is `headFacts ctx res size` for a
+context `ctx` that is request `r`'s own — HEAD flag, version and connection type are those of the
+request being answered, no matter what else has been decoded (pipelined) in the meantime. -/
+theorem C02_context_partial (cfg : Cfg) (hup : cfg.upgrade = false) (es : List Event) (s : DState) (outs : List Out)
     (h : runRev cfg es = some (s, outs)) (r : Nat) (f : HeadFacts) (hm : Out.head (some r) f ∈ outs) :
     ∃ (rq : ReqFacts) (ctx : EncCtx) (res : RespHead) (size : BodySize), rq.rid = r ∧ ctxMatches cfg ctx rq ∧ f = headFacts ctx res size :=
-  run_heads cfg es s outs h r f hm
+  run_heads cfg hup es s outs h r f hm
 
-/-- corollaries of `C02_context` in the property's own words: the response carries the request's
-version, and a response to a HEAD request never has body bytes. -/
-theorem C02_context_version_head (cfg : Cfg) (es : List Event) (s : DState) (outs : List Out)
-    (h : runRev cfg es = some (s, outs)) (r : Nat) (f : HeadFacts) (hm : Out.head (some r) f ∈ outs) :
+def wCfgPlain : Cfg :=
+  { kaEnabled := true, kaTimeout := true, reqTimeout := true, discTimeout := false, allowHalfClosed := true,
+    writeBufSize := 1 }
+
+example : ∃ cfg : Cfg, cfg.upgrade = false := ⟨wCfgPlain, rfl⟩
+
+/-- corollaries in the property's own words: the response carries the request's version, and a
+response to a HEAD request never has body bytes. -/
+theorem C02_context_version_head_partial (cfg : Cfg) (hup : cfg.upgrade = false) (es : List Event) (s : DState)
+    (outs : List Out) (h : runRev cfg es = some (s, outs)) (r : Nat) (f : HeadFacts)
+    (hm : Out.head (some r) f ∈ outs) :
     ∃ rq : ReqFacts, rq.rid = r ∧ f.version = rq.version ∧ (rq.isHead = true → f.te = TE.empty) := by
-  obtain ⟨rq, ctx, res, size, hr, hc, rfl⟩ := C02_context cfg es s outs h r f hm
+  obtain ⟨rq, ctx, res, size, hr, hc, rfl⟩ := C02_context_partial cfg hup es s outs h r f hm
   refine ⟨rq, hr, hc.2.1, ?_⟩
   intro hh
   exact C02_head_head ctx res size (by rw [hc.1]; exact hh)
+
+/-! ### hand-over to the upgrade service and flushing lose no output -/
+
+/-- **C02_upgrade_handover_keeps_output**: whenever a step hands the connection to the upgrade
+service (output `upgrade r`), the write buffer — everything encoded so far and not yet flushed —
+and the read buffer are passed on unchanged. -/
+theorem C02_upgrade_handover_keeps_output (cfg : Cfg) (s s' : DState) (o : List Out) (r : Nat)
+    (h : step cfg s .pop = some (s', o)) (hu : Out.upgrade r ∈ o) :
+    s'.writeBuf = s.writeBuf ∧ s'.readBuf = s.readBuf ∧ s'.mode = .upgraded := by
+  simp only [step] at h
+  split at h
+  · simp only [Option.some.injEq] at h
+    have e1 : s' = (applyPop cfg s).1 := by rw [h]
+    have e2 : o = (applyPop cfg s).2 := by rw [h]
+    subst e1 e2
+    by_cases hd : s.flags.draining = true
+    · simp [applyPop, hd] at hu
+    · cases hm : s.messages with
+      | nil => simp [applyPop, hd, hm] at hu
+      | cons m rest =>
+        cases m with
+        | item rq ctx =>
+          simp only [applyPop, hd, hm] at hu
+          unfold startRequest at hu
+          repeat' split at hu
+          all_goals simp at hu
+        | error status =>
+          simp only [applyPop, hd, hm] at hu
+          rcases sendResponse_cases cfg { s with messages := rest } none
+            { status := status, connType := none, chunked := true, headers := [] } (.sized 0) true with
+            ⟨_, f, h2⟩ | ⟨_, f, h2⟩ <;> (simp only [Bool.false_eq_true, if_false] at hu; rw [h2] at hu; simp at hu)
+        | upgrade rq => simp [applyPop, hd, hm]
+  · simp at h
+
+/-- what the upgrade service then encodes is appended behind it -/
+theorem C02_upgrade_encode_appends (cfg : Cfg) (s s' : DState) (o : List Out) (res : RespHead) (data : Bytes)
+    (h : step cfg s (.upgradeEncode res data) = some (s', o)) : ∃ added, s'.writeBuf = s.writeBuf ++ added := by
+  simp only [step, ok] at h
+  split at h
+  · simp at h; obtain ⟨rfl, _⟩ := h
+    exact ⟨encodeHead s.ctx res .stream ++ (teEncode (chooseTE s.ctx res .stream) data).2, by simp⟩
+  · simp at h
+
+/-- **C02_flush_loses_nothing**: a flush step moves a prefix of the write buffer to the socket and
+keeps the rest: `written ++ remaining = before`, in every mode (also inside the upgrade service). -/
+theorem C02_flush_loses_nothing (cfg : Cfg) (s s' : DState) (o : List Out) (k : Nat)
+    (h : step cfg s (.flushWrite k) = some (s', o)) :
+    ∃ bs, o = [.wrote bs] ∧ bs ++ s'.writeBuf = s.writeBuf := by
+  simp only [step, ok] at h
+  split at h
+  · simp at h; obtain ⟨rfl, rfl⟩ := h; exact ⟨_, rfl, List.take_append_drop k _⟩
+  · simp at h
+
+def wCfgUp : Cfg := { kaEnabled := true, kaTimeout := true, reqTimeout := true, discTimeout := false,
+                      allowHalfClosed := true, writeBufSize := 32768, upgrade := true }
+def wReqUp : ReqFacts := { rid := 1, isHead := false, version := .h10, conn := .upgrade, expect := false, body := .stream }
+def wReq0 : ReqFacts := { rid := 0, isHead := false, version := .h11, conn := .keepAlive, expect := false, body := .none }
+
+/-- GET (handler pending once) + upgrade request (HTTP/1.0) in one read: the GET's response head is
+encoded with the upgrade request's version and connection type. -/
+def wUpEvents : List Event :=
+  [.pollStart, .enter, .readData [.head wReq0, .head wReqUp], .readPending, .start, .pollRequestEnter,
+   .decodeOne, .handlerPoll .pending, .decodeOne,
+   .handlerPoll (.ready { status := 200, connType := none, chunked := true, headers := [] } (.sized 0))]
+
+def firstHead : List Out → Option (Option Nat × Version × ConnType)
+  | [] => none
+  | .head r f :: _ => some (r, f.version, f.connType)
+  | _ :: rest => firstHead rest
+
+theorem witness_upgrade_ctx :
+    (run wCfgUp wUpEvents).map (fun r => firstHead r.2) = some (some (some 0, .h10, .upgrade)) := by
+  decide
 
 /-- **C02_failure_terminates**: when the response body fails (error from the body stream) the
 connection future completes with an error in that very step, and on every continuation of the
@@ -322,8 +417,6 @@ with an error or the peer goes away" is therefore not claimed.) -/
 
 def wCfg : Cfg := { kaEnabled := true, kaTimeout := true, reqTimeout := true, discTimeout := false,
                     allowHalfClosed := false, writeBufSize := 32768 }
-def wReq0 : ReqFacts := { rid := 0, isHead := false, version := .h11, conn := .keepAlive, expect := false, body := .none }
-
 def wAbortEvents : List Event :=
   [.pollStart, .enter, .readData [.head wReq0, .bad], .readPending, .start, .pollRequestEnter,
    .decodeOne, .handlerPoll .pending, .decodeOne, .handlerPoll .pending, .pollRequestEnter, .tail,
